@@ -399,6 +399,16 @@ def mk_idx(base: Term, i: Term) -> Term:
     return ("idx", base, i)
 
 
+def dict_lookup(t: Term) -> Term:
+    """{..., K: v, ...}[K] == v for a dict display with constant keys and a constant K (the last entry wins). Applied where a
+    value is only *read* (the iterable of a loop): the display's lists keep their identity everywhere else."""
+    if t[0] == "idx" and t[1][0] == "dict" and t[2][0] == "c" and all(k is not None and k[0] == "c" for k, _ in t[1][1]):
+        hits = [v for k, v in t[1][1] if k[1] == t[2][1] and type(k[1]) is type(t[2][1])]
+        if hits:
+            return hits[-1]
+    return t
+
+
 def mk_slice(base: Term, lo: Term, hi: Term, step: Term) -> Term:
     if base[0] == "select":
         return mk_select(base[1], mk_slice(base[2], lo, hi, step), mk_slice(base[3], lo, hi, step))
